@@ -1,4 +1,76 @@
-import KpModel.Format.Kdbx4
-namespace Kp.Fmt
-theorem placeholder_C12 : True := trivial
-end Kp.Fmt
+import KpModel.Xml.Parse
+import KpModel.Xml.Dump
+/-!
+# C12 — save never succeeds with a file the library cannot read back, and never panics
+Property theorems only, over the faithful models of the XML writer (`dumpContent`), the xml-rs writer→reader
+contract (`view`) and the XML reader (`parseContent`).  The full statement is **false** on the unchanged code: one
+witness theorem per unreadable feature class (each is replayed on the real code by the op `save-hostile` and recorded
+as a known finding).  `reopens c` is the model's statement "what save writes for `c` is accepted by open".
+-/
+namespace Kp.Xml
+open Kp.Fmt
+
+def wEnv : Env := ⟨fun _ n => List.replicate n 0, fun x => some x, 0, List.replicate 16 0⟩
+def wDEnv : DEnv := ⟨fun _ n => List.replicate n 0, fun x => x⟩
+
+/-- strict UTF-8 view of byte values used by the witnesses: only the empty byte string is text -/
+def wUtf8 (b : Bytes) : Option String := if b = [] then some "" else none
+
+/-- the model's "save succeeds and the result opens" -/
+def reopens (c : Content) : Bool :=
+  let d := dumpContent wDEnv wUtf8 [] c
+  d.2.1 && (match parseContent wEnv (view d.1 []) with | .ok _ => true | _ => false)
+
+/-- the model's "save panics" (`expect("utf-8")` on a byte value that is not UTF-8) -/
+def savePanics (c : Content) : Bool := !(dumpContent wDEnv wUtf8 [] c).2.1
+
+def entryWith (fields : List (String × Value)) (times : Times := {}) (cd : CustomData := []) (tags : List String := []) : Node :=
+  .entry (.mk (List.replicate 16 1) fields none tags times cd none none none none none none none)
+
+def rootWith (children : List Node) : Node :=
+  .group (List.replicate 16 0) "Root" none none none children {} [] false none none none none
+
+/-- C12 at full strength on the models -/
+def C12_full : Prop := ∀ c : Content, savePanics c = false ∧ reopens c = true
+
+/-- non-vacuity: an ordinary database with a protected field, a custom-data item and a time stamp re-opens -/
+theorem readable_example :
+    reopens { root := rootWith [entryWith [("Title", .unprotected "t"), ("Password", .prot [1, 2, 3])]
+                                  { times := [("CreationTime", 0)] } [("k", ⟨some (.unprotected "v"), some 5⟩)] ["a", "b"]] } = true := by
+  decide +kernel
+
+theorem witness_control_character :
+    reopens { root := rootWith [entryWith [("Title", .unprotected "a\x04b")]] } = false := by decide
+theorem witness_noncharacter :
+    reopens { root := rootWith [entryWith [("Title", .unprotected "bad￿")]] } = false := by decide
+theorem witness_blank_field_key :
+    reopens { root := rootWith [entryWith [(" ", .unprotected "v")]] } = false := by decide
+theorem witness_empty_field_key :
+    reopens { root := rootWith [entryWith [("", .unprotected "v")]] } = false := by decide
+theorem witness_empty_custom_data_key :
+    reopens { root := rootWith [entryWith [] {} [("", ⟨none, none⟩)]] } = false := by decide
+theorem witness_empty_icon_data :
+    reopens { metaData := { customIcons := [(List.replicate 16 7, [])] }, root := rootWith [] } = false := by decide
+theorem witness_empty_binary_content :
+    reopens { metaData := { binaries := [⟨none, false, []⟩] }, root := rootWith [] } = false := by decide
+theorem witness_non_name_time_key :
+    reopens { root := rootWith [entryWith [] { times := [("1abc", 0)] }] } = false := by decide
+theorem witness_reserved_time_name :
+    reopens { root := rootWith [entryWith [] { times := [("Expires", 0)] }] } = false := by decide
+theorem witness_bytes_not_utf8_save_panics :
+    savePanics { root := rootWith [entryWith [("BinaryData", .bytes [0xff, 0xfe])]] } = true := by decide
+
+theorem C12_full_false : ¬ C12_full := by
+  intro h
+  have := (h { root := rootWith [entryWith [("Title", .unprotected "a\x04b")]] }).2
+  rw [witness_control_character] at this
+  cases this
+
+/-- lossy but readable: these never made `open` fail (blank unprotected values are dropped, `Some("")` reads as
+    `None`, blank group names read as ""): outside C03's lossless domain, inside C12's readable domain -/
+theorem blank_value_reopens :
+    reopens { root := rootWith [entryWith [("Title", .unprotected " ")]] } = true := by decide +kernel
+theorem empty_tag_reopens :
+    reopens { root := rootWith [entryWith [] {} [] ["", "a;b"]] } = true := by decide +kernel
+
+end Kp.Xml
